@@ -58,7 +58,7 @@ def watch_requests(core, senders):
 
 
 def run_schedule(src, n=2, rounds=6, closing=10, faults=1, delays=0, configs=('LIST+TIMEOUT',), fences=(False,),
-                 failures=('CONTINUE',), kinds=None, fault_from=2):
+                 failures=('CONTINUE',), kinds=None, fault_from=2, plan_fn=None):
     cfg_name = src.pick('config', list(configs))
     cfg = dict(CONFIGS[cfg_name])
     cfg['auto_fence'] = str(src.pick('auto_fence', list(fences)))
@@ -71,8 +71,11 @@ def run_schedule(src, n=2, rounds=6, closing=10, faults=1, delays=0, configs=('L
     for c in cl.cores:
         watch_requests(c, senders)
     kinds = kinds or fault_kinds(n)
-    plan = [(src.pick_int(f'fault{k}_round', fault_from, rounds - 1), src.pick_int(f'fault{k}_pos', 0, n - 1),
-             src.pick(f'fault{k}_kind', kinds)) for k in range(faults)]
+    if plan_fn:
+        plan = plan_fn(src)
+    else:
+        plan = [(src.pick_int(f'fault{k}_round', fault_from, rounds - 1), src.pick_int(f'fault{k}_pos', 0, n - 1),
+                 src.pick(f'fault{k}_kind', kinds)) for k in range(faults)]
     budget = [delays]
     counter = [0]
 
